@@ -332,6 +332,7 @@ def job_padded_lengths(res, n, nb, prefer):
 
 def replayer():
     def rp(path, c):
+        if c.get('replay') == 'make-file': return c16.replayer(c16.imp_build())(path, c)
         if c.get('replay') == 'setup' and 'padded_length' in c and c['padded_length'] <= 4096 and c['spacing_bins'] <= 64 and c.get('buckets'):
             # the lengths main computes, given to the real ElectricField (native construction in the harness), then padBunchProfiles from its IR under the allocation table
             bld = field_common.field_build(); mod = load_module(bld, field_common.FIELD_MODS)
@@ -350,6 +351,7 @@ def main(tier):
     jobs += [(job_txt_loader, (2,)), (job_impedance_reader, (2,)), (job_h5_reader, ()), (job_tracks_index, (4, 1, 8, 2))]
     jobs += [(job_upper_power_of_two, ()), (job_field_precondition, (4,)), (job_start_grid, (4,)), (job_track_coords, (8, (-6, 6), (-6, 6.5))), (job_track_coords, (9, (-4, 7), (-6, 6)))]
     jobs += [(job_padded_lengths, (n, nb, pf)) for n, nb in ((4, 4), (5, 5), (4, 1), (8, 3)) for pf in (True, False)]
+    jobs += [(c16.job_factory_file, (n, L, gs, w)) for n, L in ((8, 3), (8, 0), (5, 9)) for gs, w in ((0, False), (-1, True))]      # impedance built from a table: holds as many samples as it reports (what later readers index by)
     if tier != 'quick':
         jobs += [(job_kick_beyond, (n, nb, it, ax, r)) for n, nb in ((6, 3), (9, 1)) for it in (1, 2, 3, 4) for ax in (0, 1) for r in range(n)]
         jobs += [(job_padded_lengths, (n, nb, pf)) for n, nb in ((16, 6), (9, 7), (32, 4), (33, 5)) for pf in (True, False)] + [(job_field_precondition, (5,)), (job_start_grid, (9,))]
